@@ -59,6 +59,10 @@ def gen(ck):
             cases.append((lst([G.A, G.q(ph), "x05"]), envs_small, "pairhead"))
             cases.append((lst([G.A, G.q(ph), lst([G.C, "x02", "x03"])]), envs_small, "pairhead"))
             cases.append((lst([G.C, G.q("x01"), ph]), envs_small, "pairhead"))
+            # the call is a path and the ARGUMENTS are a ((X) . operands) form: the substituted form is pair-headed (D31)
+            for pth in ("x01", "x02", "x03", "x05"):
+                cases.append((lst([G.A, G.q(pth), ph]), envs_small, "pairhead_args"))
+            cases.append((lst([G.A, G.q(lst([G.C, "x01", "x01"])), ph]), envs_small, "pairhead_args"))
             cases.append((cons(cons(opx, "x05"), operands), envs_small, "pairhead"))
     # (b) typed random
     eg = G.ExprGen(rng)
